@@ -187,14 +187,15 @@ theorem rowToksC_eq_T (dims : List ℚ) (row : List ℚ) (hd : dims = [] ∨ dim
 
 /-! ### the reader -/
 
-/-- the finite `double` range (`strtod` would otherwise deliver ±HUGE_VAL / 0 with `ERANGE`, and
-    `>>` sets `failbit`: outside the model) -/
-def InDbl (v : ℚ) : Prop := ¬(rabs v > dblMax ∨ (v ≠ 0 ∧ rabs v < dblTiny))
+/-- the finite `long double` range of the reader after 5c3fb95 (x87 80-bit on x86-64; `strtold` would
+    otherwise deliver ±HUGE_VALL / 0 with `ERANGE`, and `>>` sets `failbit`: outside the model).
+    Every quotient of two finite doubles (`|x/u| < 2¹⁰²⁴·2¹⁰⁷⁴`) lies inside it: `inLd_quotient`. -/
+def InLd (v : ℚ) : Prop := ¬(rabs v > ldMax ∨ (v ≠ 0 ∧ rabs v < ldTiny))
 
-instance (v : ℚ) : Decidable (InDbl v) := by unfold InDbl; infer_instance
+instance (v : ℚ) : Decidable (InLd v) := by unfold InLd; infer_instance
 
 theorem readAllC_toks : ∀ ts : List Tok,
-    (∀ t ∈ ts, parseDec t.chars = some (tokVal t) ∧ InDbl (tokVal t)) →
+    (∀ t ∈ ts, parseDec t.chars = some (tokVal t) ∧ InLd (tokVal t)) →
     readAllC (ts.map Tok.chars) = .ok (ts.map tokVal) := by
   intro ts
   induction ts with
@@ -206,16 +207,16 @@ theorem readAllC_toks : ∀ ts : List Tok,
     rw [if_neg h2, ih (fun t' ht' => h t' (List.mem_cons_of_mem _ ht'))]
     rfl
 
-/-- a value of moderate size stays in the finite `double` range when rounded to six digits:
+/-- a value inside the `long double` range (with a 10⁻⁵ margin) stays inside when rounded to six digits:
     `|v − y| ≤ ½·10^(e−5) ≤ |y|/200000` -/
-theorem inDbl_tokOf (y : ℚ) (h : y = 0 ∨ (dblTiny * (100001 / 100000) ≤ |y| ∧ |y| * (100001 / 100000) ≤ dblMax)) :
-    InDbl (tokVal (tokOf y)) := by
+theorem inLd_tokOf (y : ℚ) (h : y = 0 ∨ (ldTiny * (100001 / 100000) ≤ |y| ∧ |y| * (100001 / 100000) ≤ ldMax)) :
+    InLd (tokVal (tokOf y)) := by
   by_cases hy : y = 0
   · subst hy
-    simp only [InDbl, tokOf, tokVal, Tok.value, if_true, Option.getD_some]
+    simp only [InLd, tokOf, tokVal, Tok.value, if_true, Option.getD_some]
     rintro (hc | ⟨hc, _⟩)
     · have h0 : rabs 0 = 0 := by decide +kernel
-      have hm : (0 : ℚ) < dblMax := by decide +kernel
+      have hm : (0 : ℚ) < ldMax := by decide +kernel
       rw [h0] at hc
       exact absurd hc (not_lt.mpr hm.le)
     · exact hc rfl
@@ -238,14 +239,40 @@ theorem inDbl_tokOf (y : ℚ) (h : y = 0 ∨ (dblTiny * (100001 / 100000) ≤ |y
       rw [abs_sub_comm] at this
       linarith
     have hypos : 0 < |y| := abs_pos.mpr hy
-    unfold InDbl
+    unfold InLd
     rw [rabs_eq_abs]
     rintro (hc | ⟨_, hc⟩)
     · linarith
     · linarith
 
-example : (0 : ℚ) = 0 ∨ (dblTiny * (100001 / 100000) ≤ |(0 : ℚ)| ∧ |(0 : ℚ)| * (100001 / 100000) ≤ dblMax) := Or.inl rfl
-example : InDbl (tokVal (tokOf (-1099511627776 / 2))) := inDbl_tokOf _ (Or.inr (by decide +kernel))
+/-- every quotient `x/u` of two finite non-zero doubles (`2⁻¹⁰⁷⁴ ≤ |x|,|u| ≤ 2¹⁰²⁴`) — the stated domain
+    "values over 600 decades, unit factors over 60 decades" is far inside — meets the hypothesis of
+    `inLd_tokOf`: after 5c3fb95 no value of the round trip leaves the reader's range -/
+theorem inLd_quotient (x u : ℚ) (hx1 : 1 / 2 ^ 1074 ≤ |x|) (hx2 : |x| ≤ 2 ^ 1024) (hu1 : 1 / 2 ^ 1074 ≤ |u|) (hu2 : |u| ≤ 2 ^ 1024) :
+    InLd (tokVal (tokOf (x / u))) := by
+  apply inLd_tokOf
+  right
+  have hu0 : 0 < |u| := lt_of_lt_of_le (by positivity) hu1
+  rw [abs_div]
+  have hlo : (1 : ℚ) / 2 ^ 2098 ≤ |x| / |u| := by
+    rw [le_div_iff₀ hu0]
+    calc (1 : ℚ) / 2 ^ 2098 * |u| ≤ 1 / 2 ^ 2098 * 2 ^ 1024 := mul_le_mul_of_nonneg_left hu2 (by positivity)
+      _ = 1 / 2 ^ 1074 := by decide +kernel
+      _ ≤ |x| := hx1
+  have hhi : |x| / |u| ≤ 2 ^ 2098 := by
+    rw [div_le_iff₀ hu0]
+    calc |x| ≤ 2 ^ 1024 := hx2
+      _ = 2 ^ 2098 * (1 / 2 ^ 1074) := by decide +kernel
+      _ ≤ 2 ^ 2098 * |u| := mul_le_mul_of_nonneg_left hu1 (by positivity)
+  constructor
+  · have : ldTiny * (100001 / 100000) ≤ 1 / 2 ^ 2098 := by decide +kernel
+    linarith
+  · have : (2 : ℚ) ^ 2098 * (100001 / 100000) ≤ ldMax := by decide +kernel
+    have h2 : |x| / |u| * (100001 / 100000) ≤ 2 ^ 2098 * (100001 / 100000) := mul_le_mul_of_nonneg_right hhi (by norm_num)
+    linarith
+
+example : (0 : ℚ) = 0 ∨ (ldTiny * (100001 / 100000) ≤ |(0 : ℚ)| ∧ |(0 : ℚ)| * (100001 / 100000) ≤ ldMax) := Or.inl rfl
+example : InLd (tokVal (tokOf (-1099511627776 / 2))) := inLd_tokOf _ (Or.inr (by decide +kernel))
 
 /-! ### the whole file -/
 
